@@ -23,14 +23,54 @@ def _parse(e, c, a):
     return cli(e)['args']
 
 
-@model(r'File::open::<.*>|std::fs::File::open::<.*>|File::create::<.*>')
+def path_name(p):
+    p = deref_all(p)
+    if isinstance(p, Enum) and p.ty == 'Option':
+        p = deref_all(p.f[0].v)
+    return getattr(p, 'name', None)
+
+
+@model(r'File::open::<.*>|std::fs::File::open::<.*>|File::create::<.*>|std::fs::File::create::<.*>', 'std::fs::File (in-memory file system of the harness)')
 def _file_open(e, c, a):
-    return ok(Opaque('file', rt='File'))
+    files = cli(e).get('files')
+    if files is None:
+        return ok(Opaque('file', rt='File'))
+    name = path_name(a[0])
+    if 'create' in c:
+        files[name] = []
+    elif name not in files:
+        return err(Agg([], ty='io::Error::NotFound'))
+    return ok(Opaque('file', rt='File', name=name, data=files[name]))
 
 
 @model(r'zstd::Decoder::<.*>::new|zstd::stream::read::Decoder::<.*>::new')
 def _zstd_new(e, c, a):
-    return ok(Reader(list(cli(e)['model_stream'])))
+    f = deref_all(a[0])
+    d = getattr(f, 'data', None)
+    return ok(Reader(list(d if d is not None else cli(e)['model_stream'])))
+
+
+class ZstdEncoder(Writer):
+    pass
+
+
+@model(r'zstd::Encoder::<.*>::new|zstd::stream::write::Encoder::<.*>::new', 'zstd::Encoder (identity on the typed token stream)')
+def _zstd_enc_new(e, c, a):
+    f = deref_all(a[0])
+    w = ZstdEncoder()
+    w.out = f.data          # written elements go straight into the file
+    w.file = f
+    return ok(w)
+
+
+@model(r'zstd::Encoder::<.*>::multithread|zstd::stream::write::Encoder::<.*>::multithread')
+def _zstd_mt(e, c, a):
+    return ok(UNIT)
+
+
+@model(r'zstd::Encoder::<.*>::finish|zstd::stream::write::Encoder::<.*>::finish')
+def _zstd_finish(e, c, a):
+    return ok(deref_all(a[0]).file)
 
 
 @model(r'is|atty::is')
